@@ -3,6 +3,7 @@ Decode + Database.Check + Database.Add with real keys, account-keys and byte-lev
 import json
 import os
 import re
+import zlib
 
 from lib import common, tlc, goharness
 from lib.common import InfraError, Violation
@@ -55,7 +56,7 @@ def plan(ctx, table):
                 if ctx.tier == "thorough":
                     r["npos"], r["bits"] = -1, (8 if sig else 2)
                     n_full += 1
-                elif (i + ctx.seed) % 6 == 0:
+                elif (zlib.crc32(row_key(e["row"]).encode()) + ctx.seed) % 6 == 0:
                     r["npos"], r["bits"] = -1, (8 if sig else 1)
                     n_full += 1
                 else:
